@@ -146,9 +146,10 @@ func (c *ctl) setCur(p *proc, e *gEntry) {
 
 // mutexWaiters: goroutine id -> true for goroutines whose scheduler wait reason is a
 // mutex acquisition made directly by a sqliteWriter method.
+var stackBuf = make([]byte, 1<<18) // only the controller goroutine dumps stacks
+
 func mutexWaiters() map[int64]bool {
-	buf := make([]byte, 1<<18)
-	buf = buf[:runtime.Stack(buf, true)]
+	buf := stackBuf[:runtime.Stack(stackBuf, true)]
 	out := map[int64]bool{}
 	for _, blk := range bytes.Split(buf, []byte("\n\n")) {
 		lines := strings.Split(string(blk), "\n")
@@ -195,12 +196,12 @@ func (c *ctl) settle() bool {
 			return true
 		}
 		switch {
-		case n < 200:
+		case n < 100:
 			runtime.Gosched()
 		default:
-			time.Sleep(40 * time.Microsecond)
+			time.Sleep(30 * time.Microsecond)
 		}
-		if n > 200 && n%16 == 0 {
+		if n >= 100 && n%8 == 0 {
 			mw := mutexWaiters()
 			c.mu.Lock()
 			for _, p := range running {
@@ -217,8 +218,9 @@ func (c *ctl) settle() bool {
 	}
 }
 
-// refreshBlocked puts goroutines that no longer wait for the mutex back to running.
-func (c *ctl) refreshBlocked() {
+// refreshBlocked puts goroutines that no longer wait for the mutex back to running and
+// reports whether there was one.
+func (c *ctl) refreshBlocked() bool {
 	c.mu.Lock()
 	any := false
 	for _, p := range c.procs {
@@ -226,16 +228,19 @@ func (c *ctl) refreshBlocked() {
 	}
 	c.mu.Unlock()
 	if !any {
-		return
+		return false
 	}
 	mw := mutexWaiters()
+	changed := false
 	c.mu.Lock()
 	for _, p := range c.procs {
 		if p.state == stBlocked && !mw[p.gid] {
 			p.state = stRunning
+			changed = true
 		}
 	}
 	c.mu.Unlock()
+	return changed
 }
 
 // parked returns the parked processes in spawn order; visits of the "location" map
